@@ -27,9 +27,10 @@ Theorem C03_parse_total : forall B raw eof,
 Proof. exact parse_total. Qed.
 Print Assumptions C03_parse_total.
 
-(* every reported position is the position of a token of the input (EOF included) *)
+(* every reported position is the position of a token of the input (EOF included); the one exception is
+   the wrong-argument-count error, whose blamed token (arg.Token()) the model does not mirror: (0, 0) *)
 Theorem C03_parse_errors_located : forall B raw eof es,
-  parse B raw eof = Reject es -> forall p, In p es -> In p (eof :: map snd raw).
+  parse B raw eof = Reject es -> forall p, In p es -> In p (eof :: map snd raw) \/ p = (0, 0).
 Proof. exact errors_located. Qed.
 Print Assumptions C03_parse_errors_located.
 
@@ -53,7 +54,7 @@ Print Assumptions C03_parse_statement_progress.
 (* ---------- non-vacuity: concrete runs of the model ---------- *)
 Definition tk (t : toktype) (s : string) (l c : nat) : token * position := ({| ttype := t; tlit := s_ s |}, (l, c)).
 Definition B0 : benv :=
-  {| b_funcs := [(s_ "print", false); (s_ "len", false)]; b_globals := [s_ "err"];
+  {| b_funcs := [(s_ "print", false); (s_ "len", false)]; b_arity := [(s_ "print", None); (s_ "len", Some 1)]; b_globals := [s_ "err"];
      b_events := [(s_ "key", [TyStr])]; b_tyerr := fun _ _ _ => false |}.
 
 (* x := 1 NL print x NL  is accepted *)
@@ -77,7 +78,7 @@ Proof. vm_compute. split; reflexivity. Qed.
 
 (* an oracle that objects everywhere still yields a located, non-empty rejection *)
 Example C03_parse_ex_all_type_errors :
-  parse {| b_funcs := b_funcs B0; b_globals := b_globals B0; b_events := b_events B0; b_tyerr := fun _ _ _ => true |}
+  parse {| b_funcs := b_funcs B0; b_arity := b_arity B0; b_globals := b_globals B0; b_events := b_events B0; b_tyerr := fun _ _ _ => true |}
         [tk T_IDENT "print" 1 1; tk T_WS "" 1 6; tk T_MINUS "" 1 7; tk T_NUM_LIT "1" 1 8; tk T_NL "" 1 9] (2, 1)
   = Reject [(1, 7); (1, 9)].
 Proof. vm_compute. reflexivity. Qed.
